@@ -88,6 +88,22 @@ def run_doc(case: dict) -> core.CaseResult:
     if tree.snapshot(root) != doc_snap:
         res.fail('C11/copying-changed-the-original', where0 + 'the document snapshot changed while copying')
         return res
+    # data fields (indent_by) are part of a model: give each a non-default value, then copy the model and its ancestors
+    for path, m in models:
+        if isinstance(m, M.RawTokenModel):
+            continue
+        for name in tree.data_fields(type(m)):
+            old_v = getattr(m, name)
+            setattr(m, name, '\t' if old_v != '\t' else '  ')
+            for k in range(len(path) + 1):
+                anc = tree.resolve(root, path[:k])
+                if anc is None or isinstance(anc, R.Repeated):
+                    continue
+                cp = copy.deepcopy(anc)
+                if not check_copy(anc, cp, res, where0 + f'{"/".join(path[:k]) or "root"} after {"/".join(path)}.{name} = non-default: ',
+                                  type(anc).__name__):
+                    return res
+            setattr(m, name, old_v)
     if not case.get('edits'):
         res.sample = {'text': text, 'mode': mode, 'copies': len(models)}
         return res
